@@ -7,7 +7,7 @@ import TinsModel.Crypto.Frame
 namespace Tins.Crypto
 
 /-- the four comparisons `pload[n - k] != ((crc >> s) & 0xff)` — raw reads of the payload vector -/
-def icvMatches (site : String) (pload : Bytes) (at_ : Nat) (crc : UInt32) : Out Bool := do
+def icvMatches (site : String) (pload : Bytes) (at_ : Nat) (crc : BitVec 32) : Out Bool := do
   let b0 ← rd site pload at_
   let b1 ← rd site pload (at_ + 1)
   let b2 ← rd site pload (at_ + 2)
